@@ -5,7 +5,8 @@
  * (6 ciphers, hash streamed, HMAC with short and >64-byte keys, HKDF, PBKDF2, PRNG with a private callback,
  * PRNG seeded from the built-in system source).  The workloads are first executed serially (one after the
  * other) and then concurrently, released together by a barrier and repeated ROUNDS times; one event per
- * thread reports both result digests.  Built with -fsanitize=thread a data race is reported by TSan.
+ * thread reports both result digests.  Built with -fsanitize=thread a data race is reported by TSan.  The threads'
+ * decryption outputs of 13 bytes lie back to back in one array (distinct objects without padding between them).
  *
  *   usage: tjthreads <nthreads> <rounds> <seed>
  */
@@ -58,6 +59,10 @@ static size_t cb(void *ud, unsigned char *buf, size_t size)
     return size;
 }
 
+/* plaintext buffers of all threads packed back to back (13 bytes each, no padding): a thread's decryption writes exactly its own
+ * 13 bytes; a store that spills over the end of the documented range lands in the neighbour's buffer and races with it */
+#define SLOT 13
+static unsigned char packed[MAXT * SLOT + 8];
 static unsigned char sysout[MAXT][2][32];   /* [thread][serial/concurrent] first block of a system-seeded PRNG */
 
 static uint64_t workload(int t, int phase)
@@ -77,6 +82,13 @@ static uint64_t workload(int t, int phase)
         absorb(&a, &(int){tinyjambu_256_aead_decrypt(p, &mlen, c, clen, ad, al, nonce, key)}, sizeof(int)); absorb(&a, p, mlen);
         tinyjambu_128_siv_encrypt(c, &clen, m, ml, ad, al, nonce, key); absorb(&a, c, clen);
         absorb(&a, &(int){tinyjambu_128_siv_decrypt(p, &mlen, c, clen, ad, al, nonce, key)}, sizeof(int)); absorb(&a, p, mlen);
+        {   unsigned char *slot = packed + SLOT * t; size_t l2;         /* neighbours' buffers start right behind this one */
+            tinyjambu_128_aead_encrypt(c, &clen, m, SLOT, ad, al, nonce, key);
+            if (it & 1) c[SLOT + 2] ^= 4;                               /* forged on odd iterations: the slot is wiped */
+            absorb(&a, &(int){tinyjambu_128_aead_decrypt(slot, &l2, c, clen, ad, al, nonce, key)}, sizeof(int)); absorb(&a, slot, SLOT);
+            tinyjambu_192_siv_encrypt(c, &clen, m, SLOT, ad, al, nonce, key);
+            if (!(it & 1)) c[SLOT] ^= 1;
+            absorb(&a, &(int){tinyjambu_192_siv_decrypt(slot, &l2, c, clen, ad, al, nonce, key)}, sizeof(int)); absorb(&a, slot, SLOT); }
         tinyjambu_192_siv_encrypt(c, &clen, m, ml, ad, al, nonce, key); absorb(&a, c, clen);
         tinyjambu_256_siv_encrypt(c, &clen, m, ml, ad, al, nonce, key); absorb(&a, c, clen);
         {   tinyjambu_hash_state_t h; tinyjambu_hash_init(&h);
